@@ -205,6 +205,38 @@ static void caseSE3family(Prng& r) {
   }
 }
 
+// ---- tangent accessors: the documented slots of every tangent type, const and mutable blocks, on owning objects and on views -------
+template <class B> static bool blockIs(const B& blk, const S* base, int off, int n) { if ((int)blk.size() != n) return false; for (int k = 0; k < n; ++k) if (&blk.coeffRef(k) != base + off + k) return false; return true; }
+template <class T> static void tangentAccessors(const std::string& who, Prng& r, std::initializer_list<int> layout /* lin, ang, lin2 offsets or -1 */) {
+  typename T::DataType c; for (int k = 0; k < (int)c.size(); ++k) c(k) = (S)(r.gauss() * 3);
+  T t(c); const T& ct = t; typename T::DataType buf = c; Eigen::Map<T> mt(buf.data()); const Eigen::Map<const T> cmt(buf.data());
+  std::vector<int> L(layout);
+  bool ok = true; std::string why;
+  auto chk = [&](bool b, const char* w) { if (!b && ok) { ok = false; why = w; } };
+  // const accessors read the documented coefficients; mutable ones alias them
+  if (L[0] >= 0) { chk(blockIs(t.lin(), t.data(), L[0], 3) && blockIs(mt.lin(), buf.data(), L[0], 3), "mutable lin()"); for (int k = 0; k < 3; ++k) chk(ct.lin()(k) == c(L[0] + k) && cmt.lin()(k) == c(L[0] + k), "const lin()"); }
+  if (L[1] >= 0) { chk(blockIs(t.ang(), t.data(), L[1], 3) && blockIs(mt.ang(), buf.data(), L[1], 3), "mutable ang()"); for (int k = 0; k < 3; ++k) chk(ct.ang()(k) == c(L[1] + k) && cmt.ang()(k) == c(L[1] + k), "const ang()"); }
+  cell("tangent-accessors/" + who, ok ? 0 : 1);
+  if (!ok) viol("tangent-accessor-wrong-slot/" + who, 1, J().s("which", why).vec("t", c));
+}
+template <class T> static void tangentAccessors2(const std::string& who, Prng& r, int off2) {
+  typename T::DataType c; for (int k = 0; k < (int)c.size(); ++k) c(k) = (S)(r.gauss() * 3);
+  T t(c); const T& ct = t; typename T::DataType buf = c; Eigen::Map<T> mt(buf.data()); const Eigen::Map<const T> cmt(buf.data());
+  bool ok = blockIs(t.lin2(), t.data(), off2, 3) && blockIs(mt.lin2(), buf.data(), off2, 3);
+  for (int k = 0; k < 3; ++k) ok = ok && ct.lin2()(k) == c(off2 + k) && cmt.lin2()(k) == c(off2 + k);
+  cell("tangent-accessors/" + who + "::lin2", ok ? 0 : 1);
+  if (!ok) viol("tangent-accessor-wrong-slot/" + who + "::lin2", 1, J().vec("t", c));
+}
+static void caseTangents(Prng& r) {
+  tangentAccessors<SE3Tangent<S>>("SE3Tangent", r, {0, 3});
+  tangentAccessors<SE_2_3Tangent<S>>("SE_2_3Tangent", r, {0, 3}); tangentAccessors2<SE_2_3Tangent<S>>("SE_2_3Tangent", r, 6);
+  tangentAccessors<SGal3Tangent<S>>("SGal3Tangent", r, {0, 6}); tangentAccessors2<SGal3Tangent<S>>("SGal3Tangent", r, 3);
+  { typename SGal3Tangent<S>::DataType c; for (int k = 0; k < 10; ++k) c(k) = (S)(k + 1); SGal3Tangent<S> t(c); const Eigen::Map<const SGal3Tangent<S>> m(c.data()); if (!(t.t() == c(9) && m.t() == c(9))) viol("tangent-accessor-wrong-slot/SGal3Tangent::t", 1, J().vec("t", c)); }
+  { SE2Tangent<S> t((S)1, (S)2, (S)3); const Eigen::Map<const SE2Tangent<S>> m(t.data()); bool ok = t.x() == 1 && t.y() == 2 && t.angle() == 3 && m.x() == 1 && m.y() == 2 && m.angle() == 3; cell("tangent-accessors/SE2Tangent", ok ? 0 : 1); if (!ok) viol("tangent-accessor-wrong-slot/SE2Tangent", 1, J().vec("t", t.coeffs())); }
+  { SO3Tangent<S> t(typename SO3Tangent<S>::DataType((S)1, (S)2, (S)3)); const Eigen::Map<const SO3Tangent<S>> m(t.data()); bool ok = t.x() == 1 && t.y() == 2 && t.z() == 3 && m.x() == 1 && m.z() == 3 && blockIs(t.ang(), t.data(), 0, 3); cell("tangent-accessors/SO3Tangent", ok ? 0 : 1); if (!ok) viol("tangent-accessor-wrong-slot/SO3Tangent", 1, J().vec("t", t.coeffs())); }
+  { SO2Tangent<S> t((S)0.7); const Eigen::Map<const SO2Tangent<S>> m(t.data()); bool ok = t.angle() == (S)0.7 && m.angle() == (S)0.7; cell("tangent-accessors/SO2Tangent", ok ? 0 : 1); if (!ok) viol("tangent-accessor-wrong-slot/SO2Tangent", 1, J().vec("t", t.coeffs())); }
+}
+
 // ---- validation of rotation data -------------------------------------------------------------------------------------
 template <class F> static std::string outcome(F f) {
   try { f(); } catch (const manif::invalid_argument&) { return "invalid_argument"; } catch (const std::exception& e) { return std::string("other:") + e.what(); }
@@ -262,7 +294,7 @@ int main(int argc, char** argv) {
   for (long long i = lo; i < hi; ++i) {
     gI = i; Prng r(a.seed, (uint64_t)i);
     try {
-      switch (i % 5) { case 0: caseSO2(r); caseSE2(r); break; case 1: caseSO3(r); break; case 2: caseSE3family(r); break; default: caseValidation(r); }
+      switch (i % 5) { case 0: caseSO2(r); caseSE2(r); if (i % 50 == 0) caseTangents(r); break; case 1: caseSO3(r); break; case 2: caseSE3family(r); break; default: caseValidation(r); }
     } catch (const std::exception& e) { viol(std::string("uncaught-exception/") + BN(), 1, J().s("what", e.what())); }
   }
   LOG.sample(J().s("monitor", LOG.monitor).u("seed", a.seed).s("note", "cases cycle through SO2+SE2 / SO3 / SE3+SE_2_3+SGal3+R3+Bundle constructors and (2 of 5) validation of off-sphere rotation data").str());
